@@ -43,6 +43,7 @@ RunOutput run_krylov(const Plan& plan, const RunOpts&)
     obs.calib = &calib;
     obs.general = family_is_general(spec.family);
     obs.in_solver = false;
+    obs.skip_after_expand = true;
     obs.out = &out.viol;
     ctx.observer = &obs;
     current_ctx() = &ctx;
